@@ -433,3 +433,52 @@ Ltac wrun_ro1 H fin :=
     end
   end.
 Ltac wrun_ro H fin := repeat (wrun_ro1 H fin).
+
+(* ------------------------------------------------------------------ computations that never return an error *)
+Definition noerr {A} (m : W A) : Prop := forall w e w', m w = Val (ER e, w') -> False.
+
+Lemma noerr_ret {A} (a : A) : noerr (wret a). Proof. intros w e w' H. discriminate. Qed.
+Lemma noerr_panic {A} s : noerr (@wpanic A s). Proof. intros w e w' H. discriminate. Qed.
+Lemma noerr_fuel {A} : noerr (@wfuel A). Proof. intros w e w' H. discriminate. Qed.
+Lemma noerr_lift {A} (x : res A) : noerr (wlift x).
+Proof. intros w e w' H. apply wlift_inv in H as (a & _ & [=] & _). Qed.
+Lemma noerr_wl {A} (x : res A) : noerr (wl x). Proof. apply noerr_lift. Qed.
+Lemma noerr_get_node i : noerr (get_node i).
+Proof. intros w e w' H. apply get_node_inv in H as (n & _ & [=] & _). Qed.
+Lemma noerr_get_model i : noerr (get_model i).
+Proof. intros w e w' H. apply get_model_inv in H as (n & _ & [=] & _). Qed.
+Lemma noerr_get_file i : noerr (get_file i).
+Proof. intros w e w' H. apply get_file_inv in H as (n & _ & [=] & _). Qed.
+Lemma noerr_wget : noerr wget. Proof. intros w e w' H. discriminate. Qed.
+Lemma noerr_set_node i n : noerr (set_node i n). Proof. intros w e w' H. discriminate. Qed.
+Lemma noerr_alloc n : noerr (alloc n). Proof. intros w e w' H. discriminate. Qed.
+Lemma noerr_set_model m x : noerr (set_model m x). Proof. intros w e w' H. discriminate. Qed.
+Lemma noerr_try {A} (m : W A) : noerr (wtry m).
+Proof. intros w e w' H. apply wtry_inv in H as (r0 & _ & [=]). Qed.
+Lemma noerr_bind {A B} (m : W A) (k : A -> W B) : noerr m -> (forall a, noerr (k a)) -> noerr (wbind m k).
+Proof.
+  intros Hm Hk w e w' H. apply wbind_inv in H as [(a & w1 & H1 & H2) | (e' & H1 & _)].
+  - eapply Hk; eauto.
+  - eapply Hm; eauto.
+Qed.
+Lemma noerr_modify_node i f : noerr (modify_node i f).
+Proof. unfold modify_node. apply noerr_bind; [apply noerr_get_node | intros; apply noerr_set_node]. Qed.
+Lemma noerr_modify_model i f : noerr (modify_model i f).
+Proof. unfold modify_model. apply noerr_bind; [apply noerr_get_model | intros; apply noerr_set_model]. Qed.
+
+Ltac noerr_step :=
+  first
+  [ apply noerr_ret | apply noerr_panic | apply noerr_fuel | apply noerr_wl | apply noerr_lift
+  | apply noerr_get_node | apply noerr_get_model | apply noerr_get_file | apply noerr_wget
+  | apply noerr_set_node | apply noerr_alloc | apply noerr_set_model | apply noerr_try
+  | apply noerr_modify_node | apply noerr_modify_model
+  | assumption
+  | apply noerr_bind; [ | intros ? ]
+  | match goal with
+    | |- noerr (match ?x with _ => _ end) => destruct x
+    | |- noerr (if ?b then _ else _) => destruct b
+    end ].
+Ltac noerr_tac := repeat noerr_step.
+(* close a goal whose hypothesis E says that an error-free computation returned an error *)
+Ltac absurd_err E :=
+  exfalso; match type of E with ?m ?w = Val (ER ?e, ?w') => refine ((_ : noerr m) w e w' E); noerr_tac end.
